@@ -182,6 +182,9 @@ func condRoot(v ssa.Value) ssa.Value {
 // selectionSiteIn returns the instruction of the dispatcher's outer function at which
 // selection happens: the SelectRoute invoke itself or the call of the closure that contains it.
 func selectionSiteIn(p *Program, d *Dispatcher) ssa.Instruction {
+	if d.Site != nil && d.Site.Parent() == d.Fn {
+		return d.Site
+	}
 	if d.SelectCall.Parent() == d.Fn {
 		return d.SelectCall
 	}
